@@ -24,7 +24,7 @@ import (
 	"github.com/flamego/flamego/verifharness/internal/rt"
 )
 
-const rule = "case = options (Charset, JSONIndent, XMLIndent; or none) x Renderer placed as application middleware, group handler or route handler (optionally with another, differently configured Renderer in front of it as application middleware) x 1..3 later handlers of which one renders x a render call: JSON of a randomly nested value (maps, slices, strings with <>&, numbers, booleans, null) of a tagged struct, or of a byte slice / named byte slice / json.RawMessage, XML of a struct with attributes, nested, optional and repeated elements and a field that encodes itself through pointer-receiver marshalers (JSON and XML alike; the value is passed by pointer), or of a value whose encoding is empty (empty / nil slice, nil pointer), Binary of arbitrary bytes, PlainText of arbitrary text (payloads now and then 0.5..70 KB), with a status in 100..999, for GET / POST / HEAD; optionally the rendering handler first serves a nested request through the same application (which renders something else) before rendering its own response, optionally a middleware in front or the handler itself has already put some other Content-Type on the response; with the Renderer as application middleware also a request of method GET / POST / PROPFIND / head / Head / get that ends in a rendering not-found handler, and optionally a route whose rendering handler is started by the second Next() of a middleware in front of the Renderer. " +
+const rule = "case = options (Charset, JSONIndent, XMLIndent; or none) x Renderer placed as application middleware, group handler or route handler (optionally with another, differently configured Renderer in front of it as application middleware) x 1..3 later handlers of which one renders x a render call: JSON of a randomly nested value (maps, slices, strings with <>&, numbers, booleans, null) of a tagged struct, or of a byte slice / named byte slice / json.RawMessage, XML of a struct with attributes, nested, optional and repeated elements and a field that encodes itself through pointer-receiver marshalers (JSON and XML alike; the value is passed by pointer), or of a value whose encoding is empty (empty / nil slice, nil pointer), Binary of arbitrary bytes, PlainText of arbitrary text (payloads now and then 0.5..70 KB), with a status in 100..999, for GET / POST / HEAD; optionally the rendering handler first serves a nested request through the same application (which renders something else) before rendering its own response, optionally a middleware in front or the handler itself has already put some other Content-Type on the response; with the Renderer as application middleware also a request of method GET / POST / PROPFIND / get / Put that ends in a rendering not-found handler, and optionally a route whose rendering handler is started by the second Next() of a middleware in front of the Renderer. " +
 	"Oracle: the spy writer got exactly the given status once and before the body; Content-Type is the documented media type with the configured (default utf-8) charset; Binary / PlainText bodies are verbatim; the JSON body is valid JSON laid out with the configured indentation and json.Unmarshal of it is DeepEqual to the value; the XML body decodes into an equal struct and is indented iff an indentation is configured; every handler after the middleware receives a Render. " +
 	"non-trivial = a non-200 status, a non-default option, a value nested >= 2 deep, a nested request, a Content-Type set before the render call, or a HEAD request; distinct by case text"
 
@@ -121,7 +121,9 @@ type Case struct {
 	// Env: "" (development, the default), production, test.
 	Env string `json:"env,omitempty"`
 	// NFMethod (renderer as application middleware): the method of the request
-	// that probes the not-found chain ("" = GET); "head" and "Head" are not HEAD.
+	// that probes the not-found chain ("" = GET). No spelling of HEAD in another
+	// letter case: whether "head" is the HEAD method is left open (as in C07), and
+	// if it is, a response without body is right.
 	NFMethod string `json:"not_found_probe_method,omitempty"`
 	// Resume (renderer as application middleware): a middleware in front of the
 	// Renderer calls Next() twice; on a second route the first handler writes
@@ -627,7 +629,7 @@ func genCase(t *rapid.T) Case {
 	c.Outer = c.At != "use" && rapid.IntRange(0, 3).Draw(t, "outer") == 0
 	c.Env = []string{"", "", "production", "test"}[rapid.IntRange(0, 3).Draw(t, "env")]
 	if c.At == "use" {
-		c.NFMethod = []string{"", "", "PROPFIND", "head", "Head", "get", "POST"}[rapid.IntRange(0, 6).Draw(t, "nfmethod")]
+		c.NFMethod = []string{"", "", "PROPFIND", "get", "POST", "Put"}[rapid.IntRange(0, 5).Draw(t, "nfmethod")]
 		c.Resume = rapid.IntRange(0, 2).Draw(t, "resume") == 0
 	}
 	if rapid.IntRange(0, 3).Draw(t, "opts") > 0 {
